@@ -40,8 +40,8 @@ def rule_b(ctx):
     c = F.one("signal_hook::iterator::backend::Handle::close")
     ctx.fn(c)
     st = [s for s in sites(F, c) if s.op in ("store", "swap", "fetch_or", "compare_exchange") and recv_field(s)[1] == "closed"]
-    wk = [bb for bb, t in c.calls() if t.get("f") is not None and (F.inst[t["f"]].kind == "virtual" and "SelfPipeWrite" in (F.inst[t["f"]].dyn or "") or
-                                                                     "wake" in (t.get("def") or ""))]
+    from .C09 import wake_calls
+    wk = [bb for bb, t in wake_calls(F, c)]
     dom = cfg.dominators(c)
     okk = len(st) == 1 and len(wk) >= 1 and all(st[0].bb in dom[w] and st[0].bb != w for w in wk)
     ctx.check(okk, rid, "close:store-before-wake", "close stores the flag before waking the readers", c.span, {"stores": len(st), "wakes": len(wk)})
